@@ -49,7 +49,7 @@ def counters():
 def reset(dir_stream=None, bufsize=8192):
     _st.update(write_plan=None, read_plan=None, bufsize=bufsize, dir_stream=dir_stream,
                counters={"opens_w": 0, "opens_r": 0, "globs": 0, "w_ack": 0, "w_error": 0, "w_crash": 0,
-                         "r_open_fault": 0, "r_read_fault": 0, "dir_permuted": 0})
+                         "r_open_fault": 0, "r_read_fault": 0, "dir_permuted": 0, "listdirs": 0}, in_glob=False)
 
 
 def arm_write(kind, k=0, err=errno.ENOSPC):
@@ -160,6 +160,18 @@ def _under_root(file):
 
 
 def sim_open(file, mode="r", buffering=-1, encoding=None, errors=None, newline=None, closefd=True, opener=None):
+    if isinstance(file, int) and file in _fd_paths and ("w" in mode or "a" in mode):
+        # a descriptor obtained with os.open on a path of the simulated tree: the same write plans apply
+        _fd_paths.pop(file)
+        c = _st["counters"]
+        c["opens_w"] += 1
+        plan = _st["write_plan"] or ("ack", 0, 0)
+        _st["write_plan"] = None
+        real = _real_open(file, mode.replace("t", "").replace("b", "") + "b", buffering=0, closefd=closefd)
+        buf = io.BufferedWriter(FaultRaw(real, plan), buffer_size=max(1, _st["bufsize"]))
+        if "b" in mode:
+            return buf
+        return io.TextIOWrapper(buf, encoding=encoding or "utf-8", errors=errors, newline=newline)
     p = _under_root(file)
     if p is None:
         return _real_open(file, mode, buffering, encoding, errors, newline, closefd, opener)
@@ -188,8 +200,74 @@ def sim_open(file, mode="r", buffering=-1, encoding=None, errors=None, newline=N
     return f
 
 
+# ---- the other ways to the same places: os.open + fdopen (writes), os.listdir / os.scandir / Path.iterdir (listings)
+_real_os_open = os.open
+_real_listdir = os.listdir
+_real_scandir = os.scandir
+_fd_paths = {}
+
+
+def sim_os_open(path, flags, mode=0o777, *, dir_fd=None):
+    fd = _real_os_open(path, flags, mode, dir_fd=dir_fd) if dir_fd is not None else _real_os_open(path, flags, mode)
+    if dir_fd is None and (flags & (os.O_WRONLY | os.O_RDWR)) and _under_root(path) is not None:
+        if len(_fd_paths) > 64:
+            _fd_paths.clear()
+        _fd_paths[fd] = os.fspath(path)
+    return fd
+
+
+def _permute(names):
+    names = sorted(names)
+    st = _st["dir_stream"]
+    if st is not None and len(names) > 1:
+        names = st.shuffle(names)
+        _st["counters"]["dir_permuted"] += 1
+    return names
+
+
+def sim_listdir(path="."):
+    res = _real_listdir(path)
+    if not isinstance(path, int) and not _st.get("in_glob") and _under_root(path) is not None:
+        _st["counters"]["listdirs"] += 1
+        return _permute(res)
+    return res
+
+
+class _ScanDir:
+    def __init__(self, entries):
+        self._it = iter(entries)
+
+    def __iter__(self):
+        return self
+
+    def __next__(self):
+        return next(self._it)
+
+    def __enter__(self):
+        return self
+
+    def __exit__(self, *a):
+        self.close()
+
+    def close(self):
+        self._it = iter(())
+
+
+def sim_scandir(path="."):
+    if isinstance(path, int) or _st.get("in_glob") or _under_root(path) is None:
+        return _real_scandir(path)
+    with _real_scandir(path) as it:
+        entries = {e.name: e for e in it}
+    _st["counters"]["listdirs"] += 1
+    return _ScanDir([entries[n] for n in _permute(list(entries))])
+
+
 def sim_glob(self, pattern, **kw):
-    res = sorted(_real_glob(self, pattern, **kw))
+    _st["in_glob"] = True  # the real glob lists directories itself; its result is permuted once, below
+    try:
+        res = sorted(_real_glob(self, pattern, **kw))
+    finally:
+        _st["in_glob"] = False
     if _under_root(self) is not None:
         c = _st["counters"]
         c["globs"] += 1
@@ -207,6 +285,9 @@ def install(root: pathlib.Path):
     builtins.open = sim_open
     io.open = sim_open
     pathlib.Path.glob = sim_glob
+    os.open = sim_os_open
+    os.listdir = sim_listdir
+    os.scandir = sim_scandir
     reset()
 
 
